@@ -204,4 +204,113 @@ theorem pyMul_char (va vb : Arg α) :
     | obs o' => simp [argOk, pyMul, liftObs, Obs.mul, mkProd, Arg.isObs]
 
 end shape
+
+/-! ### names and symbols: the builder with strings (`buildN`) simulates `build` and produces the specified text -/
+section names
+set_option linter.unusedSectionVars false
+variable {α : Type} [Add α] [Mul α] [Neg α] [Sub α] [Zero α] [One α]
+
+/-- is the operand a scalar? -/
+def NArg.isScal : NArg α → Bool
+  | .scal _ _ => true
+  | .obs _ => false
+
+/-- text of the negated operand: Python's rendering of `-c`, or `"-"` in front of the observable's string -/
+def negText (R : Render α) (nm : Bool) : NArg α → String
+  | .scal k c => R.text nm k.negK (-c)
+  | .obs n => "-" ++ (if nm then n.name else n.symbol)
+
+theorem pyNegN_spec (R : Render α) (v : NArg α) :
+    match pyNegN R v with
+    | .ok w => pyNeg v.arg = .ok w.arg ∧ w.isScal = v.isScal ∧ (∀ nm, w.text R nm = negText R nm v) ∧
+        (∀ k c, v = .scal k c → k.numeric = true)
+    | .error err => pyNeg v.arg = .error err := by
+  cases v with
+  | scal k c => cases k <;> simp [pyNegN, pyNeg, NArg.arg, NArg.isScal, NArg.text, negText, Kind.numeric]
+  | obs n =>
+    simp only [pyNegN, NObs.neg, mkProdN, NArg.arg, argOk, Kind.numeric, liftN, pyNeg, Obs.neg, mkProd, label,
+      NArg.isScal, NArg.text, negText]
+    refine ⟨by simp, by simp, ?_, by simp⟩
+    intro nm; cases nm <;> simp
+
+theorem pyAddN_spec (R : Render α) (va vb : NArg α) :
+    match pyAddN R va vb with
+    | .ok v => pyAdd va.arg vb.arg = .ok v.arg ∧ v.isScal = (va.isScal && vb.isScal) ∧
+        (∀ nm, v.isScal = false → v.text R nm = "(" ++ va.text R nm ++ " + " ++ vb.text R nm ++ ")")
+    | .error err => pyAdd va.arg vb.arg = .error err := by
+  cases va with
+  | scal k c =>
+    cases vb with
+    | scal k' c' =>
+      cases k <;> cases k' <;> simp [pyAddN, pyAdd, NArg.arg, NArg.isScal, Kind.numeric]
+    | obs n =>
+      cases k <;> simp [pyAddN, pyAdd, NArg.arg, NArg.isScal, Kind.numeric, Kind.reflected, mkSumN, liftN, liftObs,
+        Obs.radd, mkSum, argOk, label, NArg.text]
+  | obs n =>
+    cases vb with
+    | scal k' c' =>
+      cases k' <;> simp [pyAddN, pyAdd, NArg.arg, NArg.isScal, Kind.numeric, mkSumN, liftN, liftObs,
+        Obs.add, mkSum, argOk, label, NArg.text]
+    | obs n' =>
+      simp [pyAddN, pyAdd, NArg.arg, NArg.isScal, mkSumN, liftN, liftObs, Obs.add, mkSum, argOk, label, NArg.text]
+
+theorem pySubN_spec (R : Render α) (va vb : NArg α) :
+    match pySubN R va vb with
+    | .ok v => pySub va.arg vb.arg = .ok v.arg ∧ v.isScal = (va.isScal && vb.isScal) ∧
+        (∀ nm, v.isScal = false → v.text R nm = "(" ++ va.text R nm ++ " + " ++ negText R nm vb ++ ")") ∧
+        (v.isScal = false → ∀ k c, vb = .scal k c → k.numeric = true)
+    | .error err => pySub va.arg vb.arg = .error err := by
+  cases va with
+  | scal k c =>
+    cases vb with
+    | scal k' c' =>
+      cases k <;> cases k' <;> simp [pySubN, pySub, NArg.arg, NArg.isScal, Kind.numeric]
+    | obs n =>
+      cases k <;> simp [pySubN, pySub, NArg.arg, NArg.isScal, Kind.numeric, Kind.reflected, mkSumN, liftN, liftObs,
+        Obs.rsub, Obs.neg, NObs.neg, mkProdN, mkProd, mkSum, argOk, label, NArg.text, negText]
+  | obs n =>
+    cases vb with
+    | scal k' c' =>
+      cases k' <;> simp [pySubN, pySub, pyNegN, pyNeg, NArg.arg, NArg.isScal, Kind.numeric, Kind.negK, mkSumN, liftN,
+        liftObs, Obs.sub, mkSum, argOk, label, NArg.text, negText]
+    | obs n' =>
+      simp [pySubN, pySub, pyNegN, pyNeg, NArg.arg, NArg.isScal, mkSumN, liftN, liftObs, Obs.sub, Obs.neg, NObs.neg,
+        mkProdN, mkProd, mkSum, argOk, Kind.numeric, label, NArg.text, negText]
+
+theorem pyMulN_spec (R : Render α) (va vb : NArg α) :
+    match pyMulN R va vb with
+    | .ok v => pyMul va.arg vb.arg = .ok v.arg ∧ v.isScal = (va.isScal && vb.isScal) ∧
+        (∀ nm, v.isScal = false → v.text R nm =
+          if va.isScal then "(" ++ va.text R nm ++ " * " ++ vb.text R nm ++ ")"
+          else "(" ++ vb.text R nm ++ " * " ++ va.text R nm ++ ")")
+    | .error err => pyMul va.arg vb.arg = .error err := by
+  cases va with
+  | scal k c =>
+    cases vb with
+    | scal k' c' =>
+      cases k <;> cases k' <;> simp [pyMulN, pyMul, NArg.arg, NArg.isScal, Kind.numeric]
+    | obs n =>
+      cases k <;> simp [pyMulN, pyMul, NArg.arg, NArg.isScal, Kind.numeric, Kind.reflected, mkProdN, liftN, liftObs,
+        Obs.rmul, mkProd, argOk, label, NArg.text]
+  | obs n =>
+    cases vb with
+    | scal k' c' =>
+      cases k' <;> simp [pyMulN, pyMul, NArg.arg, NArg.isScal, Kind.numeric, mkProdN, liftN, liftObs,
+        Obs.mul, mkProd, argOk, label, NArg.text]
+    | obs n' =>
+      simp [pyMulN, pyMul, NArg.arg, mkProdN, liftN, liftObs, Obs.mul, mkProd, argOk]
+
+/-- a scalar expression reads as Python prints its value -/
+theorem exprText_scalar (R : Render α) (ids : Nat → Ident) (nm : Bool) (e : Expr α) (h : e.isScalar = true) :
+    exprText R ids nm e = scalText R nm e := by
+  cases e with
+  | leaf i => simp [Expr.isScalar] at h
+  | const k c => simp [exprText, scalText, build]
+  | neg a => simp only [Expr.isScalar] at h; simp [exprText, h]
+  | add a b => simp only [Expr.isScalar] at h; simp [exprText, h]
+  | sub a b => simp only [Expr.isScalar] at h; simp [exprText, h]
+  | mul a b => simp only [Expr.isScalar] at h; simp [exprText, h]
+
+end names
+
 end QV.Composite
